@@ -939,6 +939,16 @@ def main(out_path):
         w('Definition src_block_size : Z := %d.' % bs[0])
     soft('packet framing arithmetic (SSH_Socket.send_packet / read_packet)', ['C10'], ex_framing)
 
+    def ex_dheat_padding():
+        # dheat.py has its own packet builder; its padding rule is the one of send_packet
+        t_dh = ast.parse(src('dheat.py'))
+        gp = func_node(t_dh, 'DHEat.get_padding')
+        body = [st for st in gp.body if not (isinstance(st, ast.Expr) and isinstance(st.value, ast.Constant))]
+        need(len(body) == 4 and isinstance(body[0], ast.Assign) and isinstance(body[1], ast.If) and ast.unparse(body[2]) in ("padding = b'\\x00' * pad_len",) and ast.unparse(body[3]) == 'return (pad_len, padding)',
+             'DHEat.get_padding: padding length, adjustment, THEN the padding bytes of that length: %r' % ([ast.unparse(x)[:50] for x in body],))
+        w(int_kernel('src_dheat_padding', ['n'], body[:2], inputs={'len(payload)': 'n'}, result=lambda e: e['pad_len']))
+    soft('padding rule of the second packet builder (DHEat.get_padding)', ['C10'], ex_dheat_padding)
+
     def ex_ports():
         # every place that validates a port number: `if <name> < 1 or <name> > 65535:`
         sites = [('auditconf.py', 'AuditConf.__setattr__'), ('ssh_audit.py', 'process_commandline'), ('ssh_socket.py', 'SSH_Socket.__init__')]
